@@ -29,8 +29,10 @@ ASSUMPTIONS = [
     "outgroup clause: with floss = 0 extra co-optimal solutions using the new species are legitimate (DESIGN 7 C09)",
 ]
 OPEN = [
-    "C09_scale_statement, C09_mono_statement and the swap / outgroup bijections are stated at the level of the "
-    "specification's optimum; renaming and re-running are runtime facts decided by this check (exploration)",
+    "swap_obj / swap_sp / outgroup bijections: see Properties/C09Swap.lean, C09Outgroup.lean when present; explored by this check",
+    "monotonicity of the EVALUATED cost of what the unordered solvers return (proved: scaling for uspfs and "
+    "monotonicity of its table minimum, C09Dp)",
+    "renaming and re-running are runtime facts decided by this check (exploration)",
 ]
 
 ALGOS = ["thl", "ext_spfs", "base_spfs", "superdtl", "base_uspfs"]
